@@ -61,7 +61,7 @@ func (s *selector) match(o *Obl) bool {
 	}
 	ok := false
 	for _, k := range s.Kinds {
-		if k == kind || (k == "safety" && contains(safetyKinds, kind)) {
+		if k == kind || (k == "safety" && contains(safetyKinds, kind)) || (k == "inv" && strings.HasPrefix(kind, "inv-")) {
 			ok = true
 		}
 	}
